@@ -120,7 +120,7 @@ class ParserEngine(ParserCore, CanParse):
         if ri.should_trace:
             self.callstack.append(ri)
         self.next_token(ri)
-        key = self.memokey()
+        key = MemoKey(self.pos, ri)
 
         pos = self.pos
         try:
